@@ -8,6 +8,7 @@ CONSTANTS
   MaxHard = 1
   MaxPop = 1
   PopClasses = 2
+  AttrClasses = 2
   B1 = 3
   B2 = 3
   B3 = 2
@@ -17,7 +18,8 @@ CONSTANTS
   FnOwn = 1
   BFn = 3
   EmitAllUpTo = 1
-  Sel = 30
+  Sel = 40
+  CondSel = 2
   KeepGoing = TRUE
 INVARIANT Inv
 CHECK_DEADLOCK FALSE
